@@ -25,7 +25,8 @@ INFO = {
                    "expr_as_matrix stores coeff(y_i, x_j) at A[i, j] and re-keys y by res_like. FINDING (recorded, shared "
                    "with C14): matrix_basis does not depend on a custom basis. NOT decided: the similarity transform "
                    "(ordering_matrix) and injectivity; sympy.collect / coeff.",
-    "decided": ["C18.asmatrix", "C18.frommatrix", "C18.kronecker", "C18.expr-pairing", "C14.matrix-basis"],
+    "decided": ["C18.asmatrix", "C18.frommatrix", "C18.kronecker", "C18.expr-pairing", "C18.expr-placeholders",
+                "C14.matrix-basis", "C09.module-state"],
     "not_decided": ["the similarity transform O (first column positive) and injectivity", "sympy.collect / coeff / lambdify"],
     "assumptions": ["M4: (A kron B)(C kron D) = AC kron BD", "a similarity transform preserves products"],
 }
@@ -347,3 +348,62 @@ def expr_pairing(ctx):
             ctx.violation(c, "; ".join(problems), fn)
         else:
             ctx.ok(c, fn, entries=len(want))
+
+
+@rule("C18.expr-placeholders", props=["C18"], min_instances=1, mutants=[
+    ("placeholders created from grades", ("matrixreps", "symbolic_rest = [alg.multivector(name=string.ascii_uppercase[i], keys=mv.keys()) for i, mv in enumerate(rest)]", "symbolic_rest = [alg.multivector(name=string.ascii_uppercase[i], grades=mv.grades) for i, mv in enumerate(rest)]")),
+    ("placeholders paired with reversed inputs", ("matrixreps", "for smv, mv in zip(symbolic_rest, rest))))", "for smv, mv in zip(symbolic_rest, reversed(rest)))))")),
+])
+def expr_placeholders(ctx):
+    """Array-valued inputs of expr_as_matrix are replaced by symbolic placeholders created with the input's own key
+    tuple, and placeholder symbols are paired with the values of that same input (ORD)."""
+    q = "matrixreps.expr_as_matrix"
+    fn = ctx.func(q)
+    from ..astx import call_name, kwarg
+    comps = [n for n in ast.walk(fn) if isinstance(n, ast.ListComp) and isinstance(n.elt, ast.Call)
+             and (call_name(n.elt) or "").endswith("multivector") and kwarg(n.elt, "name") is not None]
+    if not comps:
+        raise Unknown(q, "no placeholder construction found", fn)
+    for comp in comps:
+        g = comp.generators[0]
+        loopvars = [x.id for x in ast.walk(g.target) if isinstance(x, ast.Name)]
+        keys = kwarg(comp.elt, "keys")
+        c = f"{q}#placeholders"
+        if keys is not None and isinstance(keys, ast.Call) and un(keys.func).endswith(".keys") and un(keys.func.value) in loopvars \
+                and "rest" in un(g.iter):
+            ctx.ok(c, comp, keys=un(keys))
+        else:
+            ctx.violation(c, f"symbolic placeholders for array-valued inputs are created as {un(comp.elt)}: they must have the "
+                             f"input's own key tuple (keys=<input>.keys()), because their symbols are paired position by "
+                             f"position with the input's values", comp)
+    # the pairing zip(smv.values(), mv.values()) runs over zip(symbolic_rest, rest)
+    pair = [n for n in ast.walk(fn) if isinstance(n, ast.GeneratorExp) and isinstance(n.elt, ast.Call) and call_name(n.elt) == "zip"
+            and len(n.elt.args) == 2 and all(un(a).endswith(".values()") for a in n.elt.args)]
+    c = f"{q}#value-pairing"
+    if not pair:
+        raise Unknown(c, "no symbol/value pairing found", fn)
+    g = pair[0].generators[0]
+    # names: the list the placeholders were bound to, and the iterable they were created from
+    placeholder_var = None
+    for st in ast.walk(fn):
+        if isinstance(st, ast.Assign) and st.value in comps and isinstance(st.targets[0], ast.Name):
+            placeholder_var = st.targets[0].id
+    src_iter = comps[0].generators[0].iter
+    source_var = un(src_iter.args[0]) if isinstance(src_iter, ast.Call) and call_name(src_iter) == "enumerate" and src_iter.args else un(src_iter)
+    it_ = g.iter
+    ok_shape = isinstance(it_, ast.Call) and call_name(it_) == "zip" and len(it_.args) == 2 and isinstance(g.target, ast.Tuple) \
+        and len(g.target.elts) == 2
+    if not ok_shape or placeholder_var is None:
+        raise Unknown(c, f"unrecognised pairing {un(pair[0])[:100]}", pair[0])
+    a0, a1 = un(it_.args[0]), un(it_.args[1])
+    t0, t1 = un(g.target.elts[0]), un(g.target.elts[1])
+    e0, e1 = [un(a) for a in pair[0].elt.args]
+    aligned = (a0, a1) == (placeholder_var, source_var) and (e0, e1) == (f"{t0}.values()", f"{t1}.values()")
+    mirrored = (a0, a1) == (source_var, placeholder_var) and (e0, e1) == (f"{t1}.values()", f"{t0}.values()")
+    if aligned or mirrored:
+        ctx.ok(c, pair[0], pairing=un(pair[0])[:80])
+    elif {a0, a1} <= {placeholder_var, source_var} or any(k in un(it_) for k in ("reversed", "[::-1]", "sorted")):
+        ctx.violation(c, f"placeholder symbols are paired with input values through {un(pair[0])[:100]}: placeholder i must be "
+                         f"paired with input i, symbol list first", pair[0])
+    else:
+        raise Unknown(c, f"unrecognised pairing {un(pair[0])[:100]}", pair[0])
